@@ -46,9 +46,12 @@ def oracle(spec, res, size0):
     waiting = None     # (cmd index, box, image, rms)
     polled = 0
     i = 0
+    allowed = set()        # indices of the update requests the wait is entitled to: one per non-matching comparison
     while i < len(tl):
         t = tl[i]
         nxt = tl[i + 1] if i + 1 < len(tl) else None
+        if waiting and t.startswith("w:03") and i not in allowed:
+            return "expect (command %d): an update request outside the one-per-completed-update rhythm: %r" % (waiting[0], t), polled
         if t.startswith("desktop:"):
             geom = tuple(int(x) for x in t.split(":")[1:3])
         if t.startswith("commit:"):
@@ -74,6 +77,7 @@ def oracle(spec, res, size0):
                     if after is not None and (after.startswith("w:03") or after.startswith("finish")):
                         return "expect (command %d): after a non-matching update the client did %r, %r" % (ci, nxt, after), polled
                     polled += 1
+                    allowed.add(i + 1)
         elif t.startswith("start:"):
             ci = int(t[6:])
             c = cmds[ci].split(":")
@@ -94,13 +98,56 @@ def oracle(spec, res, size0):
                     if nxt != want:
                         return "expect (command %d): no match yet, expected one update request %r, got %r" % (ci, want, nxt), polled
                     waiting = (ci, box, img, rms)
+                    allowed.add(i + 1)
         elif t.startswith("finish:") and waiting and int(t[7:]) == waiting[0]:
             return "expect (command %d) completed although the screen does not match" % waiting[0], polled
         i += 1
     return None, polled
 
 
+def cursor_expect_leg(ctx):
+    """with a local cursor the pointer shape is part of the screen: an update that carries nothing but a cursor shape can be the
+    one that makes the awaited image appear - the wait must then complete (and must not complete before)"""
+    import os, tempfile
+    from PIL import Image
+    from rfbgen import new_client, feed_impl, server_init, Session, enc_raw, enc_cursor, toks
+    r = ctx.rng
+    tmpd = tempfile.mkdtemp(prefix="verif-c07-")
+    for si in range(ctx.n(6, 40)):
+        pf = vclient.RGB32
+        W, H = 12, 8
+        cw, ch = r.choice([2, 3, 8]), r.choice([2, 4])
+        a, b = (r.randrange(256), r.randrange(256), r.randrange(256)), (r.randrange(256), r.randrange(256), r.randrange(256))
+        if a == b:
+            b = ((a[0] + 1) % 256, a[1], a[2])
+        c, trace, _ = new_client("lib", pseudocursor=True)
+        feed_impl(c, trace, [b"RFB 003.008\n" + bytes([1, 1]) + struct.pack("!I", 0) + server_init(W, H, pf, b"c")])
+        sess = Session(pf)
+        full = enc_raw(r, pf, 0, 0, W, H)
+        full.body = b"".join(pixel_bytes(pf, a) for _ in range(W * H))
+        feed_impl(c, trace, [sess.update([full])])
+        want = Image.new("RGB", (W, H), a)
+        want.paste(b, (0, 0, cw, ch))
+        path = os.path.join(tmpd, "want%d.png" % si)
+        want.save(path)
+        done = []
+        c.expectScreen(path, 0).addBoth(done.append)
+        early = bool(done)
+        cur = enc_cursor(r, pf, 0, 0, cw, ch)
+        cur.body = b"".join(pixel_bytes(pf, b) for _ in range(cw * ch)) + b"\xff" * (((cw + 7) // 8) * ch)
+        n0 = len(trace)
+        feed_impl(c, trace, [sess.update([cur])])
+        ctx.count("cursor_expect_sessions")
+        ctx.case(None, key=("cursor-expect", si))
+        if early or not done:
+            ctx.violate("expect", {"input": {"option": "pseudocursor (--localcursor)", "screen": "uniform %r" % (a,), "awaited": "the same with a %dx%d box of %r at the origin" % (cw, ch, b),
+                                             "updates": ["full raw update", "expectScreen(awaited, 0)", "cursor-shape-only update whose drawing produces the awaited image"]},
+                                   "observed": ("the wait completed before the cursor was drawn" if early else "the screen equals the awaited image after the cursor update, but the wait did not complete (trace %r)" % toks(trace[n0:])[-3:]),
+                                   "how": "VNCDoToolClient with pseudocursor on an in-memory transport"})
+
+
 def run(ctx):
+    cursor_expect_leg(ctx)
     r = ctx.rng
     n = ctx.n(160, 1200)
     lines, checks = [], []
